@@ -46,6 +46,9 @@ EXPLANATION = (
     "for any other reason); "
     "an iterator that a loop consumes is not advanced by next() elsewhere; "
     "both input modes (file / string) reach tokenize(), file_path through open() / read_text() and pddl_str as the text itself. "
+    "Every element of the returned container is one token (not a line's list of tokens added as one element); no turn of a loop over the "
+    "stored lines can end the walk; under (only file_path given) and (only pddl_str given) the constructor does not raise and stores lines "
+    "computed from the argument that is given. "
     "C11.eof: parse() must reject text that continues after the top-level form: after read_from_tokens a test of the same token "
     "container for emptiness under which 'tokens remain' raises and does not return. "
     "C11.reader: guard valuation of read_from_tokens (private helpers inlined; before that, exact local rewrites in _c11_util.prepared: a "
@@ -1199,6 +1202,17 @@ def rule_pipeline(repo: Repo) -> RuleResult:
         else:
             r.ok({"chain": ["comment", "lower", "pad(", "pad)", "split"], "split": "str.split() on arbitrary whitespace", "chains": len(states)})
 
+    # (2b) what tokenize() returns is a flat container of tokens: every element is ONE token, not a list of tokens (a line's tokens added
+    # with append instead of extend) and not a piece of text that still has to be split
+    nested = [st for st in states if st.tokenised is not None and not st.problems and st.kind in ("list", "matches")]
+    if states and all(st.tokenised is not None for st in states):
+        r.site(tok.qn + " [elements]")
+        if nested:
+            r.fail(Finding("C11.pipeline", tok, "chain:element-not-a-token", "an element of the container that tokenize() returns is a whole list of tokens (the tokens of a "
+                           "line are added as ONE element): the reader takes it for an atom, the parenthesis structure is lost and unbalanced text is accepted"))
+        else:
+            r.ok({"elements": "single tokens"})
+
     # (3) a line is skipped only because it is a comment line / blank (in every function that takes part in the flow)
     parts: Dict[int, Tuple[FuncInfo, FuncInfo]] = {id(tok.node): (tok, tok)}
     for ch in all_chains:
@@ -1214,6 +1228,13 @@ def rule_pipeline(repo: Repo) -> RuleResult:
     if not bad:
         r.ok({"line_filters": "only comment-line / blank-line tests"})
 
+    # (3b) ... and skipping a line never ends the walk: no turn of a loop over the stored lines can leave the loop (whatever the line is:
+    # comment line, blank, code), otherwise everything after the first such line is missing from the token stream
+    early = _lines_walk_left_early(repo, tok, init, r)
+    for lp in early[:1]:
+        r.fail(Finding("C11.pipeline", tok, "line-walk-left-early", f"one turn of the loop over {unparse(lp.iter, 40)} can end the walk over the lines (break / return): "
+                       f"the lines after it never reach the token stream", node=lp))
+
     # (4) both input modes reach the tokens
     r.site(init.qn + " [input modes]")
     crossed = [st for st in states if st.root_home is not None and st.root_home.qn == init.qn and
@@ -1225,8 +1246,110 @@ def rule_pipeline(repo: Repo) -> RuleResult:
         r.ok({"modes": sorted(sources)})
     else:
         r.fail(Finding("C11.pipeline", init, "input-modes", f"the tokens are fed from {sorted(sources)} only"))
+    # (4b) each input mode is accepted: with only file_path given, and with only pddl_str given, the constructor does not refuse the
+    # input and stores the lines that come from THAT argument
+    for mode, why in _input_modes_refused(repo, init, r):
+        r.fail(Finding("C11.pipeline", init, f"input-mode-refused:{mode}", why))
     r.require_sites(3)
     return r
+
+
+INPUT_MODES = {
+    # mode -> (the argument that is given, the argument that is None); reason: the two ways the property feeds text to the reader
+    "file": ("file_path", "pddl_str"),
+    "string": ("pddl_str", "file_path"),
+}
+
+
+def _input_modes_refused(repo: Repo, init: FuncInfo, r: RuleResult) -> List[Tuple[str, str]]:
+    """guard valuation of the constructor over (file_path is None, pddl_str is None)"""
+    p = L.prov(repo, init)
+    pm = L.parents_of(init)
+    names = {"file_path": "nofile", "pddl_str": "nostr"}
+    if not set(names) <= set(init.params):
+        return []
+
+    def which(e: ast.AST) -> Optional[str]:
+        if isinstance(e, ast.Name):
+            for prm, atom in names.items():
+                if L.is_param(p, e, prm):
+                    return atom
+        return None
+
+    def matcher(e):
+        if isinstance(e, ast.Compare) and len(e.ops) == 1 and isinstance(e.ops[0], (ast.Is, ast.IsNot, ast.Eq, ast.NotEq)) and isinstance(e.comparators[0], ast.Constant) \
+                and e.comparators[0].value is None:
+            a = which(e.left)
+            if a:
+                return a if isinstance(e.ops[0], (ast.Is, ast.Eq)) else "!" + a
+        if isinstance(e, ast.Name) and isinstance(e.ctx, ast.Load) and _bool_ctx(pm, e):
+            a = which(e)
+            if a == "nofile":        # a path object is true whenever it is given (an empty pddl_str is false: not decided here)
+                return "!" + a
+        return None
+
+    G = L.Guards(init, matcher)
+    g = G.g
+    out: List[Tuple[str, str]] = []
+    if not {"nofile", "nostr"} & G.atoms_seen:
+        return out
+    stores = [n for n in g.nodes() if isinstance(g.stmt[n], (ast.Assign, ast.AnnAssign)) and
+              any(isinstance(t, ast.Attribute) and isinstance(t.value, ast.Name) and t.value.id == init.self_name
+                  for t in (g.stmt[n].targets if isinstance(g.stmt[n], ast.Assign) else [g.stmt[n].target]))]
+    for mode, (given, absent) in INPUT_MODES.items():
+        val = {names[given]: False, names[absent]: True}
+        seen = G.reach(val)
+        r.site(f"{init.qn} [{mode} input accepted]")
+        raised = [n for n in L.explicit_raises(g) if n in seen]
+        normal = any(m in seen and m != g.raise_ and g.kind[m] != "raise" for m, _l in g.pred[g.exit]) or any(g.kind[n] == "return" and n in seen for n in g.nodes())
+        if raised and not normal:
+            out.append((mode, f"PDDLTokenizer({given}=<given>) with {absent}=None is refused ({unparse(g.stmt[raised[0]], 60)}): well-formed text cannot be read from a {mode}"))
+            continue
+        # (a raise next to a normal way out is one that the two atoms do not decide, e.g. a check of the file's existence: not a refusal of the mode)
+        live = [n for n in stores if n in seen]
+        if stores and not live:
+            out.append((mode, f"with only {given} given the constructor stores no lines"))
+            continue
+        under = G.under(val, seen)
+        roots = set()
+        for n in live:
+            st = g.stmt[n]
+            try:
+                roots |= {x[0] for x in p.trace(st.value, under=under)}
+            except (KeyError, RecursionError):
+                roots = None
+                break
+        if roots is not None and f"param:{absent}" in roots and f"param:{given}" not in roots:
+            out.append((mode, f"with only {given} given the stored lines are computed from {absent} (which is None)"))
+        else:
+            r.ok({"mode": mode, "stored_from": sorted(x for x in (roots or ()) if x.startswith("param:"))})
+    return out
+
+
+def _lines_walk_left_early(repo: Repo, tok: FuncInfo, init: FuncInfo, r: RuleResult) -> List[ast.For]:
+    """statement loops of tokenize() whose iterable is the stored collection of lines as a whole (possibly wrapped: iter / enumerate / list /
+    filter ...; not an element of it, so not a loop over the characters or tokens of one line) that one turn can leave"""
+    p = L.prov(repo, tok)
+    stored = {t.attr for n in ast.walk(init.node) if isinstance(n, (ast.Assign, ast.AnnAssign)) for t in (n.targets if isinstance(n, ast.Assign) else [n.target])
+              if isinstance(t, ast.Attribute) and isinstance(t.value, ast.Name) and t.value.id == init.self_name}
+    W = _line_world(repo, tok)
+    out = []
+    for lp in [n for n in ast.walk(tok.node) if isinstance(n, ast.For)]:
+        try:
+            tr = p.trace(lp.iter)
+        except (KeyError, RecursionError):
+            continue
+        if not tr or not all(len(x) >= 2 and x[0] == "self" and x[1].startswith("attr:") and x[1][5:] in stored and
+                             not any(s_ in ("elem", "item") or s_.startswith(("item:", "unpack:", "slice:", "in:")) for s_ in x[2:]) for x in tr):
+            continue
+        if W.g.node_of(lp) is None:
+            continue
+        r.site(L.site(tok, lp.iter, "walk over the lines"))
+        if L.leaves_loop_early(W.G, {}, lp):
+            out.append(lp)
+        else:
+            r.ok({"walk": "every line is visited"})
+    return out
 
 
 # --------------------------------------------------------------------------- emptiness tests of the token container
